@@ -163,6 +163,16 @@ fn audit(tests: &[Test]) {
     );
 }
 
+/// the integer a reified counterexample denotes (the authored property tests of C16 generate integers)
+fn expr_int(e: &aiken_lang::expr::UntypedExpr) -> Option<i64> {
+    use aiken_lang::expr::UntypedExpr;
+    match e {
+        UntypedExpr::UInt { value, .. } => value.replace('_', "").parse().ok(),
+        UntypedExpr::UnOp { op: aiken_lang::ast::UnOp::Negate, value, .. } => expr_int(value).map(|x| -x),
+        _ => None,
+    }
+}
+
 #[derive(Clone, Copy)]
 struct Listener;
 impl EventListener for Listener {
@@ -173,8 +183,16 @@ impl EventListener for Listener {
                 let j = match &t {
                     TestResult::UnitTestResult(u) => json!({"kind": "unit", "module": u.test.module, "name": u.test.name, "success": u.success,
                         "cpu": u.spent_budget.cpu, "mem": u.spent_budget.mem, "logs": u.logs}),
-                    TestResult::PropertyTestResult(p) => json!({"kind": "property", "module": p.test.module, "name": p.test.name, "success": t.is_success(),
-                        "iterations": p.iterations, "labels": p.labels, "counterexample": format!("{:?}", p.counterexample).chars().take(300).collect::<String>()}),
+                    TestResult::PropertyTestResult(p) => {
+                        let (state, cex) = match &p.counterexample {
+                            Ok(Some(v)) => ("some", expr_int(v).map(|n| json!(n)).unwrap_or(J::Null)),
+                            Ok(None) => ("none", J::Null),
+                            Err(_) => ("error", J::Null),
+                        };
+                        json!({"kind": "property", "module": p.test.module, "name": p.test.name, "success": t.is_success(),
+                            "iterations": p.iterations, "labels": p.labels, "cex_state": state, "cex": cex,
+                            "counterexample": format!("{:?}", p.counterexample).chars().take(300).collect::<String>()})
+                    }
                     TestResult::BenchmarkResult(_) => json!({"kind": "bench"}),
                 };
                 out.push(j.to_string());
